@@ -129,6 +129,16 @@ func (w *world) rowIndex(r *gen.MRow) int {
 	return -1
 }
 
+// lateCell reports whether obj names a cell that was added to its row after the row had joined the table.
+func (w *world) lateCell(obj ident) bool {
+	var i, j int
+	if n, _ := fmt.Sscanf(string(obj), "X%d.%d", &i, &j); n != 2 || i >= len(w.m.All) {
+		return false
+	}
+	r := w.m.All[i]
+	return r.Attached && j >= len(r.Cells)-r.LateAdds
+}
+
 // identify finds which live object of the table was handed to a callback.
 func (w *world) identify(po tabular.PropertyOwner) ident {
 	switch x := po.(type) {
@@ -403,6 +413,9 @@ func CheckCase(c Case) *ev.Violation {
 				continue // the header row itself (not reachable through the API): add-time firing on it is unspecified
 			}
 			if r := byID[e.reg]; r != nil && (specified(r, e.obj) || strings.HasPrefix(string(e.obj), "?")) {
+				if (r.owner == "table" || r.owner == "column") && r.when == wAdd && r.target == tCell && w.lateCell(e.obj) {
+					continue // add-time firing of table/column callbacks for a cell added after its row was attached is not specified
+				}
 				act = append(act, e)
 			}
 		}
@@ -464,8 +477,11 @@ func CheckCase(c Case) *ev.Violation {
 				w.predictOp(gen.Op{K: "rowadd", Ref: w.rowIndex(mr), Items: []gen.Item{gen.S("seed")}}, &pred)
 				mr.Real.Add(cell)
 				mr.Cells = append(mr.Cells, gen.MCell{It: gen.S("seed"), Live: gen.Materialise(gen.S("seed")), Text: "seed"})
-				if mr.Attached && len(mr.Cells) > w.m.MaxEver {
-					w.m.MaxEver = len(mr.Cells)
+				if mr.Attached {
+					mr.LateAdds++
+					if len(mr.Cells) > w.m.MaxEver {
+						w.m.MaxEver = len(mr.Cells)
+					}
 				}
 				w.regs = append(w.regs, &reg{id: id, owner: "cell", row: mr, cell: len(mr.Cells) - 1, when: wRender, target: tItself})
 			}
